@@ -88,6 +88,7 @@ def run(W, chk):
     # ---- stableswap, empty pool: minimum liquidity minted to the contract
     pol = CutPolicy([ASSUME_SS, EMPTY_POOL, NOT_SINGLE])
     A = W.run(PM, "execute", ("ProvideLiquidity",), pol)
+    amount_scale_uses_own_decimals(chk, W.run(PM, "execute", ("ProvideLiquidity",), CutPolicy([ASSUME_SS, FUNDED_POOL, NOT_SINGLE])), "stableswap deposit")
     # sibling agreement: what is withheld from the first depositor and what is minted to the contract are scaled from the same
     # (min decimals, max decimals) pair - every first-party call fed only by the pool's decimals gets the same operator classes per argument
     sig = {}
@@ -177,3 +178,27 @@ def zero_refunds_dropped(chk, A):
     chk.expect(bool(strict) and not loose, "LIVE-zero-refund", "WithdrawLiquidity", "zero refunds are filtered out by a strict comparison",
                "refund amounts are compared with zero non-strictly (%d site(s)): a zero coin stays in the bank message" % len(loose),
                where((loose or strict)[0]))
+
+
+def amount_scale_uses_own_decimals(chk, A, lab):
+    """unit agreement on the deposit side: wherever an asset amount is multiplied / divided by a power of ten derived from the pool's
+    decimals, the exponent is `max decimals - that asset's own decimals` - the pool's *minimum* decimals never enters (a three-precision
+    pool would have its middle asset mis-scaled)"""
+    dec = lambda s: bool(s) and all(x.endswith("asset_decimals[*]") or x.startswith("Const(") for x in s) and any(x.endswith("asset_decimals[*]") for x in s)   # noqa: E731
+    amt = lambda s: bool(s) and all(x in ("info.funds[*].amount", "Store(POOLS).assets[*].amount") or x.startswith("Const(") for x in s) and \
+        any(not x.startswith("Const(") for x in s)   # noqa: E731
+    sites = []
+    for e in A.calls(r"::(checked_mul|checked_div|mul|div|multiply_ratio|checked_multiply_ratio)$"):
+        da = e.extra.get("dargs", [])
+        if len(da) != 2:
+            continue
+        o0, o1 = all_origins(da[0]), all_origins(da[1])
+        if (dec(o0) and amt(o1)) or (dec(o1) and amt(o0)):
+            sites.append((e, da[0] if dec(o0) else da[1]))
+    if not sites:
+        chk.skip("UNIT-amount-scale", lab, "no amount x 10^(decimals) scaling found in this shape")
+        return
+    bad = [(e, d) for (e, d) in sites if any("min" in ops for o, ops in opmap(d).items() if o.endswith("asset_decimals[*]"))]
+    chk.expect(not bad, "UNIT-amount-scale", lab, "%d amount scalings use max decimals and the asset's own decimals only" % len(sites),
+               "an asset amount is scaled by a power of ten that involves the pool's minimum decimals: %s" %
+               ({k: sorted(v) for k, v in opmap(bad[0][1]).items()} if bad else ""), where(bad[0][0]) if bad else "")
